@@ -54,6 +54,29 @@ def make_envelope(m):
     return env
 
 
+class ShelfLike(dict):
+    """a mapping with the semantics of shelve.open(..., writeback=False):
+    values are copied in on assignment and copied out on every look-up, so
+    mutating a looked-up value changes nothing until it is assigned back"""
+
+    def __getitem__(self, key):
+        import copy
+        return copy.deepcopy(dict.__getitem__(self, key))
+
+    def __setitem__(self, key, value):
+        import copy
+        dict.__setitem__(self, key, copy.deepcopy(value))
+
+    def get(self, key, default=None):
+        return self[key] if key in self else default
+
+    def items(self):
+        return [(k, self[k]) for k in list(dict.keys(self))]
+
+    def values(self):
+        return [self[k] for k in list(dict.keys(self))]
+
+
 class Substrate(object):
     """the durable thing under a backend (dict/fs/redis/objects)"""
 
@@ -63,6 +86,10 @@ class Substrate(object):
         lat = scn.get('store_lat')
         if self.kind == 'dict':
             self.env_db, self.meta_db = {}, {}
+            if scn.get('dict_kind') == 'shelf':
+                # "can be implemented as a shelve" (DictStorage docstring):
+                # a mapping that hands out copies and keeps copies
+                self.env_db, self.meta_db = ShelfLike(), ShelfLike()
         elif self.kind == 'disk':
             self.fs = fs or simfs.SimFS(world, latency=tuple(lat) if lat
                                         else simfs.LAT_DISK)
